@@ -4,8 +4,8 @@ LEVEL = "proof"
 
 def check(rep, tier):
     from contracts import tracer_ftba, tracer_primitive, tracer_trace
-    tracer_ftba.run(rep, tier, clauses=("FT1", "FT2", "FT3"))
-    tracer_primitive.run(rep, tier)
-    tracer_trace.run(rep, tier)
+    rep.run(tracer_ftba.run, rep, tier, clauses=("FT1", "FT2", "FT3"))
+    rep.run(tracer_primitive.run, rep, tier)
+    rep.run(tracer_trace.run, rep, tier)
     from contracts import programs_exact
-    programs_exact.run_nest(rep)
+    rep.run(programs_exact.run_nest, rep)
